@@ -400,16 +400,9 @@ raw_harness!(c08_raw_cursor_deleted_slot, {
 pub(crate) fn c14_region_name(_name: &str, _index: &str) -> String {
     String::from("v/usize")
 }
-#[kani::proof]
-#[kani::unwind(10)]
-#[kani::stub(alloc::fmt::format, stubs::format_stub)]
-#[kani::stub(rawdb::Database::sync_bg_tasks, rawdb::verif_root::sync_bg_tasks_stub)]
-#[kani::stub(rawdb::Database::remove_region_if_exists, rawdb::verif_root::remove_region_if_exists_stub)]
-#[kani::stub(std::vec::Vec::<T>::with_capacity, stubs::with_capacity_stub)]
-#[kani::stub(std::vec::Vec::<T>::reserve, stubs::reserve_stub)]
-#[kani::stub(<[u8]>::to_vec, stubs::to_vec_stub8)]
-#[kani::stub(crate::base::read_write::vec_region_name, c14_region_name)]
-fn c14_raw_import_step() {
+/// One import of the single region "v/usize" (length `region_len`, concrete per harness; header fields and
+/// payload bytes symbolic) through the plain or the forced entry point.
+fn c14_body(forced: bool, region_len: usize) {
     let mut buf: Box<[u8; CAPB]> = Box::new(kani::any());
     // stored header (if the region is long enough to have one)
     let stored_hv: u32 = kani::any();
@@ -419,12 +412,9 @@ fn c14_raw_import_step() {
     buf[0..4].copy_from_slice(&stored_hv.to_le_bytes());
     buf[4..8].copy_from_slice(&stored_vv.to_le_bytes());
     buf[20] = stored_fmt;
-    let region_len: usize = kani::any();
-    kani::assume(region_len <= CAPB);
     let (db, _r) = rawdb::verif_root::api_contract_db_named(buf.as_mut_ptr(), CAPB, region_len, "v/usize");
     let req: u32 = kani::any();
     kani::assume(req < 1000);
-    let forced = kani::any::<bool>();
     rawdb::verif_root::ghost_clear();
     let opts = ImportOptions::new(&db, "v", Version::new(req));
     let res = if forced { V::forced_import_with(opts, Format::Bytes) } else { V::import_with(opts, Format::Bytes) };
@@ -435,17 +425,17 @@ fn c14_raw_import_step() {
     let stored_matches = has_header && stored_hv == 2 && stored_vv == req + 1 && stored_fmt == 0;
     if !forced {
         // plain import never discards anything
-        assert!(removals == 0);
+        assert!(removals == 0, "plain import discarded data");
         match &res {
             Ok(v) => {
-                assert!(region_len == 0 || (stored_matches && aligned));
+                assert!(region_len == 0 || (stored_matches && aligned), "plain import accepted a mismatching or damaged vector");
                 if region_len > 0 {
-                    assert!(v.len() == (region_len - HEADER_OFFSET) / 4);
-                    assert!(rawdb::verif_root::ghost_writes() == 0);
+                    assert!(v.len() == (region_len - HEADER_OFFSET) / 4, "import returned another length than stored");
+                    assert!(rawdb::verif_root::ghost_writes() == 0, "import of an existing vector wrote to its region");
                 }
             }
             Err(_) => {
-                assert!(region_len > 0 && !(stored_matches && aligned));
+                assert!(region_len > 0 && !(stored_matches && aligned), "plain import refused a matching vector");
                 assert!(rawdb::verif_root::ghost_writes() == 0, "refused import wrote to the region");
             }
         }
@@ -456,15 +446,54 @@ fn c14_raw_import_step() {
         }
         // a misaligned payload behind a matching header is corruption, not a version change
         if stored_matches && !aligned {
-            assert!(removals == 0 && res.is_err());
+            assert!(removals == 0 && res.is_err(), "forced import discarded a vector whose version and format match");
         }
+        // what the forced entry point itself stores (it adds the layer VERSION twice): kept and returned
+        let stored_by_forced = has_header && stored_hv == 2 && stored_vv == req + 2 && stored_fmt == 0;
+        if stored_by_forced {
+            assert!(removals == 0, "forced import discarded a vector it created itself with the same arguments");
+            if aligned {
+                match &res {
+                    Ok(v) => assert!(v.len() == (region_len - HEADER_OFFSET) / 4, "import returned another length than stored"),
+                    Err(_) => panic!("forced import refused a vector it created itself with the same arguments"),
+                }
+            } else {
+                assert!(res.is_err(), "forced import accepted a misaligned payload");
+            }
+        }
+        assert!(removals <= 1);
     }
-    kani::cover!(!forced && res.is_ok() && region_len == HEADER_OFFSET + 8, "matching import with two elements");
-    kani::cover!(!forced && res.is_err() && region_len == HEADER_OFFSET, "header-only region with another version refused");
-    kani::cover!(forced && removals == 1, "forced import discards on mismatch");
+    kani::cover!(true, "import returned");
     core::mem::forget((res, db, buf));
 }
-
+macro_rules! c14_case {
+    ($name:ident, $forced:expr, $len:expr) => {
+        #[kani::proof]
+        #[kani::unwind(10)]
+        #[kani::stub(alloc::fmt::format, stubs::format_stub)]
+        #[kani::stub(rawdb::Database::sync_bg_tasks, rawdb::verif_root::sync_bg_tasks_stub)]
+        #[kani::stub(rawdb::Database::remove_region_if_exists, rawdb::verif_root::remove_region_if_exists_stub)]
+        #[kani::stub(std::vec::Vec::<T>::with_capacity, stubs::with_capacity_stub)]
+        #[kani::stub(std::vec::Vec::<T>::reserve, stubs::reserve_stub)]
+        #[kani::stub(<[u8]>::to_vec, stubs::to_vec_stub8)]
+        #[kani::stub(crate::base::read_write::vec_region_name, c14_region_name)]
+        #[kani::stub(rawdb::Database::create_region_if_needed, rawdb::verif_root::create_region_if_needed_stub)]
+        #[kani::stub(rawdb::Database::get_region, rawdb::verif_root::get_region_none_stub)]
+        fn $name() {
+            c14_body($forced, $len);
+        }
+    };
+}
+c14_case!(c14_import_plain_len0, false, 0);
+c14_case!(c14_import_plain_len20, false, 20);
+c14_case!(c14_import_plain_len32, false, HEADER_OFFSET);
+c14_case!(c14_import_plain_len38, false, HEADER_OFFSET + 6);
+c14_case!(c14_import_plain_len40, false, HEADER_OFFSET + 8);
+c14_case!(c14_import_forced_len0, true, 0);
+c14_case!(c14_import_forced_len20, true, 20);
+c14_case!(c14_import_forced_len32, true, HEADER_OFFSET);
+c14_case!(c14_import_forced_len38, true, HEADER_OFFSET + 6);
+c14_case!(c14_import_forced_len40, true, HEADER_OFFSET + 8);
 
 // ---------------------------------------------------------------------------------------------
 // Concrete-shape worlds (all container lengths concrete; values, indices of overlay entries and the
